@@ -89,6 +89,8 @@ class Squid:
     def _env(self):
         e = dict(os.environ)
         e["ASAN_OPTIONS"] = f"abort_on_error=1:detect_leaks=0:verify_asan_link_order=0:log_path={self.work}/asan:detect_stack_use_after_return=0"
+        if os.environ.get("VERIF_ASAN_EXTRA"):      # triage aid, e.g. handle_abort=1 for a stack trace of an assertion
+            e["ASAN_OPTIONS"] += ":" + os.environ["VERIF_ASAN_EXTRA"]
         e["UBSAN_OPTIONS"] = f"print_stacktrace=1:log_path={self.work}/ubsan"
         if self.clock_path:
             e["SQUID_VERIF_CLOCK"] = self.clock_path
